@@ -22,6 +22,8 @@ def _css_oracle_only(ctx):
         impl = su.impl_expand_many(cases)
         c07_css.check_oracle(ctx, cases, impl, tag)
     ctx.cov['css_half'] = 'implementation oracle only: coq/props/C07Css.v not present in this tree'
+    ctx.cov['rule'] = ctx.cov.get('rule', '') + (' || css: the generated cases of harness/c07_css.py (short strings, valid abbreviations, '
+                                                'mutations, random option sets) through the implementation oracle only')
 
 
 def run(ctx):
@@ -29,12 +31,9 @@ def run(ctx):
     if ok:
         ctx.obligations('props/C07.v')
     c07_markup.run_markup(ctx, model_ok=ok)
-    rule = ctx.cov.get('rule', '')
     if _css_available():
         import c07_css
-        ctx.cov['rule'] = ''
-        c07_css.run_css(ctx)
-        ctx.cov['rule'] = rule + ' || ' + ctx.cov.get('rule', '')
+        c07_css.run_css(ctx)          # appends its own rule text, builds and accounts props/C07Css.v itself
     else:
         _css_oracle_only(ctx)
 
